@@ -99,6 +99,9 @@ type Field struct {
 	Oneof      int    // index into Message.Oneofs; -1 = none
 	Comment    string // raw leading comment as protoc would deliver it ("" = none)
 	HasComment bool
+	// Trailing / Detached are the other comment kinds of SourceCodeInfo (never part of the description).
+	Trailing string
+	Detached []string
 	// MapKey is the key type of a map field (String in D; others only for C18 faults).
 	MapKey Scalar
 }
